@@ -5,6 +5,7 @@ import (
 	"encoding/binary"
 	"fmt"
 	"math/big"
+	"sync"
 
 	"github.com/bnb-chain/tss-lib/v2/common"
 	cmt "github.com/bnb-chain/tss-lib/v2/crypto/commitments"
@@ -71,6 +72,7 @@ func c16Gen(tier string, seed int64) []core.Case {
 	add("tagged-exhaustive", "tags-x-tuples", 4, nil)
 	add("cross-function", "bytes-vs-ints-vs-tagged", 2, nil)
 	add("boundary-shift", "embedded-framing", 3, nil)
+	add("history-independence", "edge-calls-interleaved", 2, nil)
 	n := tierN(tier, 2, 8)
 	for i := 0; i < n; i++ {
 		add("long-random", fmt.Sprint(i), 2, core.P{"i": i, "n": tierN(tier, 20000, 100000)})
@@ -96,6 +98,8 @@ func c16Run(c core.Case, env *core.Env) core.Result {
 		c16Cross(&r)
 	case "boundary-shift":
 		c16Shift(&r)
+	case "history-independence":
+		c16History(&r, env.Seed)
 	case "long-random":
 		c16Long(&r, env.Seed, c.P.Int("i"), c.P.Int("n"))
 	case "decommit-edits":
@@ -735,4 +739,109 @@ func refParseSecrets(in []*big.Int, partsCap, maxPart int) ([][]*big.Int, bool) 
 		}
 	}
 	return parts, len(parts) > 0
+}
+
+// c16History: a digest is a function of its input alone. A fixed list of inputs is hashed once; then again in another
+// order with edge calls in between (no elements at all, an empty tag, a nil element, very long inputs) and from several
+// goroutines at once; every digest must equal the first one. Also commitments built before and after the edge calls.
+func c16History(r *core.Result, seed int64) {
+	rg := rng(seed, "c16history")
+	type item struct {
+		fn  int
+		tag []byte
+		bs  [][]byte
+	}
+	var items []item
+	for i := 0; i < 600; i++ {
+		n := 1 + rg.Intn(4)
+		bs := make([][]byte, n)
+		for j := range bs {
+			bs[j] = make([]byte, 1+rg.Intn(40))
+			rg.Read(bs[j])
+			bs[j][0] |= 1
+		}
+		tag := make([]byte, rg.Intn(40))
+		rg.Read(tag)
+		items = append(items, item{fn: i % 3, tag: tag, bs: bs})
+	}
+	ints := func(bs [][]byte) []*big.Int {
+		out := make([]*big.Int, len(bs))
+		for i := range bs {
+			out[i] = new(big.Int).SetBytes(bs[i])
+		}
+		return out
+	}
+	hash := func(it item) []byte {
+		switch it.fn {
+		case 0:
+			return common.SHA512_256(it.bs...)
+		case 1:
+			return common.SHA512_256i(ints(it.bs)...).FillBytes(make([]byte, 32))
+		}
+		return common.SHA512_256i_TAGGED(it.tag, ints(it.bs)...).FillBytes(make([]byte, 32))
+	}
+	first := make([][]byte, len(items))
+	for i, it := range items {
+		first[i] = hash(it)
+	}
+	cd0 := cmt.NewHashCommitmentWithRandomness(big.NewInt(77), big.NewInt(1), big.NewInt(2))
+	edge := func(k int) {
+		switch k % 7 {
+		case 0:
+			common.SHA512_256i_TAGGED([]byte("tag with no elements"))
+		case 1:
+			common.SHA512_256()
+		case 2:
+			common.SHA512_256i()
+		case 3:
+			common.SHA512_256i_TAGGED(nil, big.NewInt(1))
+		case 4:
+			common.SHA512_256i_TAGGED([]byte{}, nil, big.NewInt(1))
+		case 5:
+			common.SHA512_256(make([]byte, 100000))
+		case 6:
+			common.SHA512_256iOne(big.NewInt(5))
+		}
+	}
+	order := rg.Perm(len(items))
+	for k, i := range order {
+		edge(k)
+		if got := hash(items[i]); !bytes.Equal(got, first[i]) {
+			r.Fail("not-a-function-of-input", "the digest of input #%d (function %d) changed after an edge call of kind %d: %x then %x", i, items[i].fn, k%7, first[i], got)
+			break
+		}
+		r.Count("rehashed_after_edge_calls", 1)
+	}
+	if cd1 := cmt.NewHashCommitmentWithRandomness(big.NewInt(77), big.NewInt(1), big.NewInt(2)); cd1.C.Cmp(cd0.C) != 0 || !cd1.Verify() || !cd0.Verify() {
+		r.Fail("commitment-depends-on-history", "the same (r, secrets) commit to different values / fail to open after unrelated hash calls")
+	}
+	// several goroutines at once
+	var wg sync.WaitGroup
+	var mu sync.Mutex
+	bad := ""
+	for g := 0; g < 8; g++ {
+		wg.Add(1)
+		go func(g int) {
+			defer wg.Done()
+			for k := 0; k < len(items); k++ {
+				i := (k*7 + g*13) % len(items)
+				if (k+g)%5 == 0 {
+					edge(k + g)
+				}
+				if got := hash(items[i]); !bytes.Equal(got, first[i]) {
+					mu.Lock()
+					bad = fmt.Sprintf("input #%d (function %d) hashed concurrently: %x, alone: %x", i, items[i].fn, got, first[i])
+					mu.Unlock()
+					return
+				}
+			}
+		}(g)
+	}
+	wg.Wait()
+	if bad != "" {
+		r.Fail("not-a-function-of-input:concurrent", "%s", bad)
+	}
+	r.Count("rehashed_concurrently", int64(8*len(items)))
+	r.NonTrivial = r.Obs["rehashed_after_edge_calls"] > 100
+	r.Sample = map[string]any{"kind": "history-independence", "inputs": len(items), "edge_call_kinds": 7, "goroutines": 8}
 }
